@@ -26,6 +26,9 @@ type PktClosure struct {
 	// (the downstream writer / upstream reader), nil if none is captured.
 	Next *ssa.Parameter
 	Conv *ssa.ChangeType
+	// Pkt overrides the packet parameters (used when a helper function is analysed as if it were the closure).
+	Pkt   []*ssa.Parameter
+	depth int
 }
 
 var funcTypeKinds = map[string]ClosureKind{
